@@ -61,7 +61,7 @@ if not v.ok:
 c.log('design: TSTable.tla %d states, Visibility.tla %d states' % (d.distinct, v.distinct))
 
 # ---- 2. real concurrent executions -> traces -> TLC ----
-runs = 2 if c.quick else 8
+runs = 3 if c.quick else 12        # two thirds on the measure engine, one third on the stream engine (same structure, own hooks)
 millis = 2500 if c.quick else 10000
 rnd = random.Random(c.seed)
 traces, events, stats_all, samples = 0, 0, {}, []
@@ -70,7 +70,7 @@ for i in range(runs):
     life = os.path.join(core.BUILD, 'out', 'c05-life-%d-%d.ndjson' % (os.getpid(), i))
     vis = os.path.join(core.BUILD, 'out', 'c05-vis-%d-%d.ndjson' % (os.getpid(), i))
     cfg = dict(lifecycle=life, visibility=vis, millis=millis, writers=rnd.choice([1, 2, 3]), readers=rnd.choice([2, 3, 4]),
-               batchRows=rnd.choice([1, 3]), snapshots=True)
+               batchRows=rnd.choice([1, 3]), snapshots=True, engine='stream' if i % 3 == 2 else 'measure')
     res = c.run_harness(binp, ['-mode', 'stress', '-cfg', json.dumps(cfg)], timeout=600)
     if res['inconclusive']:
         c.inconclusive('; '.join(res['inconclusive'][:3]))
@@ -117,7 +117,7 @@ for i in range(runs):
             selftest['visibility_partial_batch'] = not validate('VisibilityTrace.tla', VIS_CFG, mut, 'c05s')[0]
         if not selftest or not all(selftest.values()):
             c.inconclusive('binding self-test failed: a corrupted trace was accepted (%s)' % selftest)
-    c.log('run %d: %d lifecycle + %d visibility events, %s' % (i, len(ll), len(vl), {k2: res['stats'][k2] for k2 in ('batches', 'file_snapshots') if k2 in res['stats']}))
+    c.log('run %d (%s): %d lifecycle + %d visibility events, %s' % (i, cfg['engine'], len(ll), len(vl), {k2: res['stats'][k2] for k2 in ('batches', 'file_snapshots') if k2 in res['stats']}))
 
 c.cov.update(states=d.distinct + v.distinct, transitions=d.generated + v.generated, traces_validated_against_impl=traces, trace_events=events,
              evaluations=runs, distinct_nontrivial=traces, stress_stats=stats_all, binding_selftest_rejected=selftest,
